@@ -347,12 +347,15 @@ def staged_publication_class(ctx, rule, modname, clsname, what):
     ren = None
     for m in K.methods.values():
         for c in A.calls(m.node):
-            if A.unparse(c.func) in ("os.rename", "os.replace") and len(c.args) == 2 and m.params():
+            if A.unparse(c.func) in ("os.rename", "os.replace", "shutil.move") and len(c.args) == 2 and m.params():
                 s_, d_ = A.self_attr(c.args[0], m.params()[0]), A.self_attr(c.args[1], m.params()[0])
                 if s_ and d_:
                     ren = (m, c, s_, d_)
     ctx.require(ren is not None, f"{modname}:{clsname}: no os.rename(self.<staged>, self.<published>) found")
     _, rcall, S, D = ren
+    ctx.check(rule, ren[0], A.unparse(rcall.func) != "shutil.move", f"publishes-with-move:{clsname}", f"{clsname}.{ren[0].name} publishes with rename(2)",
+              f"{clsname}.{ren[0].name} publishes with `shutil.move`: that is a rename only on one filesystem and only when the destination is not an existing directory — otherwise it copies "
+              f"over the live {what} in place (a crash leaves it truncated)", node=rcall)
     eng = fsfx.engine(ctx.program)
     n = 0
     for m in K.methods.values():
@@ -524,7 +527,7 @@ def classic_slips(ctx, rule, files):
             n += 1
             nested = ".<locals>." in fi.qual
             for f in (lints.dup_operands, lints.strip_charset, lints.cached_mutable, lints.broad_try_around_loop, lints.open_without_trunc, lints.unused_result,
-                      lints.stored_iterator, lints.seq_equal_by_zip, lints.quantity_truthiness, lints.swallowed_fs_failure, lints.errno_tolerance_around_loop, lints.stale_precomputed_hash, lints.crossed_family_update, lints.guard_add_mismatch, lints.splitext_never_equal, lints.publish_failure_as_status, lints.quantity_or_default, lints.guard_attr_deviates, lints.unbalanced_peer_args, lints.id_in_hash, lints.set_op_with_sequence_default, lints.loop_flag_overwritten, lints.identity_on_quantity, lints.conditional_reraise, lints.loop_variable_reused, lints.item_error_around_loop, lints.loop_target_clobbers, lints.mode_mask_drops_special_bits):
+                      lints.stored_iterator, lints.seq_equal_by_zip, lints.quantity_truthiness, lints.swallowed_fs_failure, lints.errno_tolerance_around_loop, lints.stale_precomputed_hash, lints.crossed_family_update, lints.guard_add_mismatch, lints.splitext_never_equal, lints.publish_failure_as_status, lints.quantity_or_default, lints.guard_attr_deviates, lints.unbalanced_peer_args, lints.id_in_hash, lints.set_op_with_sequence_default, lints.loop_flag_overwritten, lints.identity_on_quantity, lints.conditional_reraise, lints.loop_variable_reused, lints.item_error_around_loop, lints.loop_target_clobbers, lints.mode_mask_drops_special_bits, lints.copyfileobj_length_confusion):
                 if nested:
                     continue  # the enclosing function's walk already covers nested bodies
                 for node, tag, msg in f(fi.node):
